@@ -223,6 +223,9 @@ def expand(spec):
         dep, local, users = ns_decls(*spec[1:])
         return {'k': 'ns:inner%d:value%d:local%d' % tuple(spec[1:]), 'f': fam, 'd': dep + local + users, 'm': None,
                 'u': None}
+    if fam == 'unk':
+        k, decls = UNK_CASES[UNK_INDEX[spec[1]]]
+        return {'k': 'unk:' + k, 'f': fam, 'd': decls, 'm': None, 'u': None}
     if fam in ('x', 'xs'):
         k, decls, mech, unspec = X_CASES[X_INDEX[spec[1]]]
         return {'k': 'x:' + k, 'f': fam, 'd': decls, 'm': mech, 'u': unspec}
@@ -290,6 +293,37 @@ def ns_solo(b, spec, order, wd, gcc):
         probs += compare_decl(d, env, gcc.get(('', d[1])), ents.get(d[1]))
     info['typelib'] = dict((d[1], _brief(ents.get(d[1]))) for d in local + users)
     return probs, info
+
+
+# "unknown layout" clause, observed through vt/c/drv_layout.c (the compiler's own code with warnings left non-fatal;
+# the g-ir-compiler binary aborts on every member of unknown size): void members and arrays of void, in every
+# position, and records of unknown layout embedded by value / as array / two levels deep / by pointer (control)
+def _unk_cases():
+    out = []
+    u8, u32 = ["b", "guint8"], ["b", "guint32"]
+    base = [('u8', u8), ('u16', u16), ('u32', u32), ('ptr', ptr)]
+    unk = [('void', ["void"]), ('void[3]', ["a", ["void"], 3])]
+    alpha = base + unk
+    for cont, maxlen in (('S', 3), ('U', 2)):
+        for L in range(1, maxlen + 1):
+            for seq in itertools.product(alpha, repeat=L):
+                if any(t[0] in ('void', 'a') for _, t in seq):
+                    out.append(('%s:%s' % (cont, ','.join(n for n, _ in seq)), [[cont, "O", [t for _, t in seq]]]))
+    for iname, inner in (('S(void)', ["S", "I", [["void"]]]), ('S(u8,void)', ["S", "I", [u8, ["void"]]]),
+                         ('S(void,u32)', ["S", "I", [["void"], u32]]), ('U(u8,void)', ["U", "I", [u8, ["void"]]]),
+                         ('S(u8,void[3],u16)', ["S", "I", [u8, ["a", ["void"], 3], u16]])):
+        iv = ["v", "I"]
+        out.append(('embed:' + iname, [
+            inner,
+            ["S", "O", [u16, iv, u32]], ["U", "V", [iv, dbl]], ["S", "A", [u8, ["a", iv, 3], u8]],
+            ["S", "M", [u8, iv]], ["S", "N", [u16, ["v", "M"], u32]], ["U", "W", [u8, ["v", "M"]]],
+            ["S", "Q", [["p", "I"], u8]],                  # a POINTER to it has a known size
+        ]))
+    return out
+
+
+UNK_CASES = _unk_cases()
+UNK_INDEX = dict((c[0], i) for i, c in enumerate(UNK_CASES))
 
 
 def seqs(n_atoms, maxlen, skip_all_below=None, exclude=()):
@@ -374,6 +408,8 @@ def all_specs(tier):
                 out.append(('ns', ii, vi, li))
     for c in X_CASES:
         out.append(('xs' if c[2] in SOLO_MECHS else 'x', c[0]))
+    for c in UNK_CASES:
+        out.append(('unk', c[0]))
     return out
 
 
@@ -435,7 +471,26 @@ def _clean(err):
     return '\n'.join(l for l in err.splitlines() if l.strip() and l.strip() != '**')
 
 
-def compile_doc(b, cases, order, wd):
+def compile_with_driver(b, xml, wd):
+    """like tools.compile_gir, but through vt/c/drv_layout.c (warnings not fatal, typelib not validated)"""
+    gir = os.path.join(wd, 'Test-1.0.gir')
+    out = os.path.join(wd, 'Test-1.0.typelib')
+    with open(gir, 'w', encoding='utf-8') as f:
+        f.write(xml)
+    try:
+        os.unlink(out)
+    except FileNotFoundError:
+        pass
+    p = subprocess.run([b.driver('drv_layout'), tools.DEPS, gir, out], stdout=subprocess.PIPE,
+                       stderr=subprocess.PIPE, env=b.env(), cwd=wd)
+    data = None
+    if p.returncode == 0 and os.path.exists(out):
+        with open(out, 'rb') as f:
+            data = f.read()
+    return p.returncode, (p.stdout + p.stderr).decode('utf-8', 'replace'), data
+
+
+def compile_doc(b, cases, order, wd, driver=False):
     """-> (rc, stderr, {entry name: decoded entry} or None, xml)"""
     hfirst, perm = order
     groups = []
@@ -444,7 +499,7 @@ def compile_doc(b, cases, order, wd):
     h = ('', HELPERS if perm != 'rev' else list(reversed(HELPERS)), HLOCAL)
     groups = ([h] + groups) if hfirst else (groups + [h])
     xml = M.gir_doc(groups).xml()
-    rc, err, data = tools.compile_gir(b, xml, wd)
+    rc, err, data = compile_with_driver(b, xml, wd) if driver else tools.compile_gir(b, xml, wd)
     err = _clean(err)
     if rc != 0 or data is None:
         return rc, err, None, xml
@@ -499,6 +554,9 @@ def compare_decl(d, env, gcc, ent, part=None):
         return []                                  # UNSPECIFIED (counted by the caller)
     fu = M.first_unknown(d, env)
     if fu is None:
+        if gcc is None:        # the case as a whole is not valid C (void member elsewhere): x86-64 ABI calculator
+            lay = M.compound_layout(d, env)
+            gcc = [lay['size'], lay['align']] + lay['offsets']
         size, align, offs = gcc[0], gcc[1], gcc[2:]
         if tsize != size:
             probs.append(('size', '%s: typelib size %d, gcc sizeof %d' % (name, tsize, size)))
@@ -570,10 +628,10 @@ def solo(b, spec, order, wd, gcc=None):
         gcc = gcc_numbers([('', c)], wd, 'solo')
     if spec[0] == 'ns':
         return ns_solo(b, spec, order, wd, gcc)
-    rc, err, ents, xml = compile_doc(b, [('', c)], order, wd)
+    rc, err, ents, xml = compile_doc(b, [('', c)], order, wd, driver=(spec[0] == 'unk'))
     info = {'rc': rc, 'stderr': err.strip()[-400:], 'gir': xml}
     if ents is None:
-        if has_unknown(c) or c['u']:
+        if (has_unknown(c) or c['u']) and spec[0] != 'unk':
             return [], info
         return [('rejected', 'g-ir-compiler exit %d: %s' % (rc, err.strip()[-300:]))], info
     probs = compare_case(c, '', gcc, ents)
@@ -643,7 +701,7 @@ def _work(chunk):
                     part.sample({'case': cases[0][1]['k'], 'c': M.show_c(cases[0][1]['d'])})
                 continue
             for order in orders:
-                rc, err, ents, xml = compile_doc(b, cases, order, wd)
+                rc, err, ents, xml = compile_doc(b, cases, order, wd, driver=(fam == 'unk'))
                 part.add(evaluations=1)
                 if ents is None:
                     part.outcome(('batch-rejected', fam))
@@ -709,7 +767,7 @@ def run(ctx):
     for s in specs:
         by_fam.setdefault(s[0], []).append(s)
     batches = []
-    for fam in ('seq', 'n1', 'n2', 'en', 'x', 'xs', 'ns'):
+    for fam in ('seq', 'n1', 'n2', 'en', 'x', 'unk', 'xs', 'ns'):
         ss = by_fam.get(fam, [])
         size = 12 if fam in ('xs', 'ns') else BATCH
         for i in range(0, len(ss), size):
@@ -724,12 +782,14 @@ def run(ctx):
                  '(gchar**, gint*, GArray*, GPtrArray*, GByteArray*, and [1],[2],[3] of those and of GList*/GHashTable*) alone '
                  'and in first/middle/last position among i8,i32,ptr,dbl, nested by value through n1/n2, and every '
                  'length-3 sequence over {i8,i32,ptr,dbl, T[0] for 6 element types} with a zero-length array; en: all %d (min,max) pairs over %d boundary values x '
-                 '{enumeration, bitfield}; x: %d scanner-producible special shapes (one violation key per mechanism); ns: %d two-namespace cases '
+                 '{enumeration, bitfield}; x: %d scanner-producible special shapes (one violation key per mechanism); unk: %d aggregates with void members / embedded '
+                 'unknown-layout records compiled by vt/c/drv_layout.c (same parser and typelib builder, warnings not fatal) '
+                 'and required to carry the unknown encodings; ns: %d two-namespace cases '
                  '(App embeds Dep.Outer whose members are unqualified Dep names, without/with same-named local types). '
                  'non-trivial = every case except bit-field ones'
                  % (4 if thorough else 3, NCORE, ' (plus length 3 with exactly one non-core kind)' if thorough else '',
                     NALL, len(INNER), len(EXTRA),
-                    len(ENUM_VALUES) * (len(ENUM_VALUES) + 1) // 2, len(ENUM_VALUES), len(X_CASES),
+                    len(ENUM_VALUES) * (len(ENUM_VALUES) + 1) // 2, len(ENUM_VALUES), len(X_CASES), len(UNK_CASES),
                     len(NS_INNER) * len(NS_VALUE) * len(NS_LOCAL)),
             bounds={'core_len': 4 if thorough else 3, 'variant_len': '2 + one-variant triples' if thorough else 2, 'core_kinds': NCORE,
                     'kinds': NALL, 'pointer_array_kinds': len(EXTRA), 'inner_kinds': len(INNER), 'inner_len': 2, 'enum_values': len(ENUM_VALUES),
